@@ -86,6 +86,9 @@ func genAll(P *Program, only string) ([]*VC, []string) {
 			errs = append(errs, err.Error())
 			continue
 		}
+		for _, w := range vc.warnings {
+			fmt.Println("WARNING:", w)
+		}
 		vcs = append(vcs, vc)
 	}
 	return vcs, errs
